@@ -425,6 +425,16 @@ def gen_schema_focus(rng) -> Schema:
             fields.insert(rng.randrange(len(fields) + 1), ("g", t))
         sch.classes.append({"name": f"C{i}", "base": base, "sup": rng.random() < 0.4, "lazy": rng.random() < 0.3,
                             "dialect": (rng.randrange(nd) if rng.random() < 0.5 else None), "fields": fields})
+    if rng.random() < 0.35:
+        # recursive schema: a back edge (to the class itself or an earlier one) behind a list / dict, written as a
+        # forward reference; values are cut off with empty containers
+        src = rng.randrange(ncls)
+        dst = rng.randrange(src + 1)
+        t = ("dc", dst, "fwd")
+        t = ("seq", "list", t) if rng.random() < 0.6 else ("map", "dict", ("atom", "str"), t)
+        sch.classes[src]["fields"].append(("back", t))
+        for k in sch.classes:       # cyclic schemas through plain dataclasses or across different format mixins recurse
+            k["base"] = "dict"      # forever at compile time (RecursionError; reported, not a sharing matter)
     for c in sch.classes:
         add_defaults(rng, c)
     return sch
@@ -484,7 +494,7 @@ def ty_src(t, sch: Schema) -> str:
     if k == "lit":
         return "typing.Literal[" + ", ".join(repr(x) for x in t[1]) + "]"
     if k == "dc":
-        return f"C{t[1]}"
+        return f"'C{t[1]}'" if len(t) > 2 and t[2] == "fwd" else f"C{t[1]}"
     raise ValueError(t)
 
 
@@ -703,13 +713,16 @@ def gen_value_src(rng, t, sch: Schema, depth: int, wire: bool = False) -> str:
         if rng.random() < 0.3 and not NO_NONE[0]:
             return "None"
         return gen_value_src(rng, t[1], sch, depth, wire)
+    if k in ("seq", "map") and depth <= -2 and mentions(t, "dc"):
+        return ("[]" if k == "seq" else "{}")            # recursion cut-off (only plain list / dict carry back edges)
     if k == "seq":
         o = t[1]
         if o in SET_LIKE:
             et = t[2] if t[2] != ("any",) else ("atom", rng.choice(["int", "str"]))    # Any items of a set: hashable ones
             items = distinct_hashables(rng, et, sch, n(), wire)
         else:
-            items = [gen_value_src(rng, t[2], sch, depth - 1, wire) for _ in range(n())]
+            cnt = rng.choice([0, 1, 1]) if t[2][0] == "dc" and len(t[2]) > 2 else n()
+            items = [gen_value_src(rng, t[2], sch, depth - 1, wire) for _ in range(cnt)]
         body = ", ".join(items)
         if wire:
             return f"[{body}]"
@@ -737,7 +750,7 @@ def gen_value_src(rng, t, sch: Schema, depth: int, wire: bool = False) -> str:
     if k == "map":
         o = t[1]
         kt = t[2] if t[2] != ("any",) else ("atom", "str")
-        keys = distinct_hashables(rng, kt, sch, n(), wire)
+        keys = distinct_hashables(rng, kt, sch, rng.choice([0, 1, 1]) if t[3][0] == "dc" and len(t[3]) > 2 else n(), wire)
         if wire:
             keys = [x for x in keys if x != "None"]
         vals = [gen_value_src(rng, t[3], sch, depth - 1, wire) for _ in keys]
@@ -1418,6 +1431,11 @@ def build_case(rng, side: str, depth: int, extras: bool):
     entry = gen_entry(rng, sch, side)
     if focus and entry["api"] == "codec" and rng.random() < 0.75:
         entry = gen_entry(rng, sch, side)
+    recursive = any(fn == "back" for k in sch.classes for fn, _ in k["fields"])
+    while recursive and (entry["api"] == "codec" or entry["fmt"] is not None):
+        # codecs cannot be built for self-referencing dataclasses at all (AttributeError: 'attrs_...' has no attribute
+        # '__mashumaro_to_dict__' at construction; reported, not a sharing matter): recursive schemas go through the mixin
+        entry = gen_entry(rng, sch, side)
     if entry["api"] == "codec":
         # codecs take any top-level type
         if rng.random() < 0.5:
@@ -1901,6 +1919,8 @@ def hist_case(ctx, c: Case):
         if f"w:{k}" in getattr(c, "src_types", ""):
             ctx.hist("wrappers", f"{c.side}:{k}")
     ctx.hist("generator", "dialect-interplay" if getattr(c, "focus", False) else "general")
+    if any(fn == "back" for k in c.sch.classes for fn, _ in k["fields"]):
+        ctx.hist("recursive_schema", c.side)
 
 
 def shape_key(c: Case):
